@@ -24,6 +24,8 @@ def ftok(fr):
 
 
 def cases(rng, tier):
+    for c in structured_cases(rng, tier):
+        yield c
     n = 400 if tier == "quick" else 4000
     for i in range(n):
         L = rng.randint(1, 8) if rng.random() < 0.3 else rng.randint(9, 40)
@@ -52,6 +54,26 @@ def cases(rng, tier):
         else:
             ks = [rng.choice(["swapcharge", "shuffle", "block", "cluster"]) for _ in range(rng.randint(2, 6))]
             yield Case(["move %s %s %s %d %d" % (",".join(ks), s, ftok(fr), seed, cached)], {"kind": "chain"})
+
+
+def structured_cases(rng, tier):
+    """frozen sets tied to the charge classes (all neutral / all positive / ... positions frozen) for every move, and parents whose
+    cache was warmed through kappa() on sequences in kappa's 1.0-1.1 reporting band"""
+    seqs = ["KGEGKGEG", "KEA", "KKEEGG", "KGE", "GGKGG", "EEKK", "KGGE", "AKAEAG"] + [gen.rand_seq(rng, rng.choice(gen.KINDS), rng.randint(3, 14)) for _ in range(6 if tier == "quick" else 60)]
+    for s in seqs:
+        for fr in gen.structured_frozen(s):
+            for k in ("swapcharge", "shuffle", "block", "cluster"):
+                for rep in range(3 if k == "swapcharge" else 1):
+                    yield Case(["move %s %s %s %d %d" % (k, s, ftok(fr), rng.randint(0, 10 ** 6), rng.randint(0, 1))], {"kind": "structured-frozen-" + k})
+            yield Case(["move api_shuffle %s %s %d 1" % (s, ftok(fr), rng.randint(0, 10 ** 6))], {"kind": "structured-frozen-api"})
+    for s in gen.CLAMP_BAND:
+        L = len(s)
+        for k in ("swapcharge", "shuffle", "swap", "block", "cluster"):
+            extra = " %d %d" % (rng.randrange(L), rng.randrange(L)) if k == "swap" else ""
+            yield Case(["move %s %s - %d 2%s" % (k, s, rng.randint(0, 10 ** 6), extra)], {"kind": "kappa-warmed-" + k})
+        yield Case(["move shuffle,swapcharge,shuffle %s - %d 2" % (s, rng.randint(0, 10 ** 6))], {"kind": "kappa-warmed-chain"})
+        yield Case(["move api_shuffle %s - %d 1" % (s, rng.randint(0, 10 ** 6))], {"kind": "kappa-warmed-api"})
+        yield Case(["move api_shuffle %s 0,%d %d 1" % (s, L - 1, rng.randint(0, 10 ** 6))], {"kind": "kappa-warmed-api"})
 
 
 def replay_line(kind, parent, frozen_tok, tape, extra):
